@@ -107,4 +107,32 @@ pub fn register(l: &mut Vec<Obl>) {
     roundtrip!("jch", Cam16Jch);
     roundtrip!("qmh", Cam16Qmh);
     roundtrip!("jsh", Cam16Jsh);
+    // forward model against the published equations (symx/src/reference/cam16.rs), three viewing conditions
+    macro_rules! forward_vs_li {
+        ($key:literal, $W:ty, $la:expr, $surround:expr, $sur:expr, $tier:expr) => {{
+            let w = <$W as palette::white_point::WhitePoint<f64>>::get_xyz();
+            let cond = crate::reference::cam16::conditions([w.x * 100.0, w.y * 100.0, w.z * 100.0], $la, 20.0, $sur);
+            obl!(l; concat!("c16_forward_vs_published_", $key), "C16", $tier,
+                concat!("the forward model equals the published CAM16 equations (Li et al. 2017, Appendix A, transcribed independently incl. the viewing-condition quantities): lightness J and brightness Q within 1e-6 relative, chroma C, colourfulness M and saturation s within 1e-5 relative + 1e-6, for every XYZ in [0.05, 1]^3; viewing conditions ", $key),
+                ["Cam16::from_xyz", "cam16::math::xyz_to_cam16", "cam16::math::prepare_parameters", "cam16::math::DependentParameters::adapt"],
+                [var("x", 0.05, 1.0), var("y", 0.05, 1.0), var("z", 0.05, 1.0)];
+                |v| {
+                    let mut r = Res::<B>::new();
+                    let mut p = Parameters::<palette::cam16::StaticWp<$W>, <T as palette::num::FromScalar>::Scalar>::default_static_wp($la);
+                    p.surround = $surround;
+                    let got = Cam16::<T>::from_xyz(Xyz::<$W, T>::new(v[0], v[1], v[2]), p.bake());
+                    let want = crate::reference::cam16::forward(v[0] * T::k(100.0), v[1] * T::k(100.0), v[2] * T::k(100.0), &cond);
+                    let rel = |a: T, b: T, rt: f64, at: f64| (a - b).abs_().le(b.abs_() * T::k(rt) + T::k(at));
+                    r.goal("lightness", rel(got.lightness, want.j, 1e-6, 1e-9));
+                    r.goal("brightness", rel(got.brightness, want.q, 1e-6, 1e-9));
+                    r.goal("chroma", rel(got.chroma, want.c, 1e-5, 1e-6));
+                    r.goal("colorfulness", rel(got.colorfulness, want.m, 1e-5, 1e-6));
+                    r.goal("saturation", rel(got.saturation, want.s, 1e-5, 1e-6));
+                    r
+                });
+        }};
+    }
+    forward_vs_li!("d65_la40_average", wp::D65, 40.0, palette::cam16::Surround::Average, (1.0, 0.69, 1.0), Tier::Quick);
+    forward_vs_li!("d65_la40_dim", wp::D65, 40.0, palette::cam16::Surround::Dim, (0.9, 0.59, 0.9), Tier::Quick);
+    forward_vs_li!("d50_la64_dark", wp::D50, 64.0, palette::cam16::Surround::Dark, (0.8, 0.525, 0.8), Tier::Quick);
 }
